@@ -177,6 +177,28 @@ func (fc *FnCtx) havocEffects(st *State, eff *effSet, callee string) {
 			st.heap[k] = fc.tb.Fresh("hv!"+k, srt)
 		}
 	}
+	// keys written only inside objects the callee allocated itself: every object that was
+	// allocated before the call keeps its contents
+	var fks []string
+	for k := range eff.fresh {
+		if !eff.keys[k] {
+			fks = append(fks, k)
+		}
+	}
+	sort.Strings(fks)
+	for _, k := range fks {
+		srt, ok := fc.keySort[k]
+		if !ok || !strings.HasPrefix(srt, "(Array Ref ") {
+			continue
+		}
+		tb := fc.tb
+		old := fc.heapGet(st, k, srt)
+		nv := tb.Fresh("hf!"+k, srt)
+		al := fc.heapGet(st, "alloc", ArraySort("Ref", "Bool"))
+		r := tb.BoundVar("r", "Ref")
+		fc.assume(st, tb.Quant(true, []*Term{r}, tb.Implies(tb.Select(al, r), tb.Eq(tb.Select(nv, r), tb.Select(old, r))), tb.Select(nv, r)))
+		st.heap[k] = nv
+	}
 }
 
 // callByContract: assert requires, havoc frame, assume ensures.
